@@ -71,3 +71,32 @@ class RecRegF(BaseEstimator, RegressorMixin):
 
     def predict(self, X):
         return numpy.array([0.5 * (1 + (r % 4)) for r in ids(X)], dtype=numpy.float64)
+
+
+class LookupClf(BaseEstimator, ClassifierMixin):
+    """Binary classifier whose probability for a row is an exact dyadic lookup on (training-set signature, row id):
+    no floating-point arithmetic, exact ties with the threshold 0.5 occur on purpose."""
+    TABLE = [0.125, 0.25, 0.375, 0.5, 0.5, 0.625, 0.75, 0.875]
+
+    def __init__(self, salt=0):
+        self.salt = salt
+
+    def fit(self, X, y, sample_weight=None):
+        rows = ids(X)
+        self.sig_ = (sum((r + 1) * 2654435761 for r in rows) + 97 * len(rows) + self.salt) % (2 ** 32)
+        self.classes_ = numpy.array([0, 1])
+        return self
+
+    def predict_proba(self, X):
+        out = []
+        for r in ids(X):
+            q = ((self.sig_ ^ (r * 40503 + 12345)) >> 3) % 8
+            p1 = self.TABLE[q]
+            out.append([1.0 - p1, p1])
+        return numpy.array(out, dtype=numpy.float64).reshape((-1, 2))
+
+    def predict(self, X):
+        return (self.predict_proba(X)[:, 1] >= 0.5).astype(numpy.int32)
+
+    def score(self, X, y, sample_weight=None):
+        return 0.0
